@@ -1215,6 +1215,16 @@ asn1constraint_compute_constraint_range(
 				if(errno == ERANGE) {
 					range->extensible = 1;
 					range->not_OER_visible = 1;
+					if(ct->type == ACT_CA_CSV
+					&& (cpr_flags & (CPR_PER_root_only
+						| CPR_strict_PER_visibility))) {
+						/*
+						 * X.691, #10.3: what follows the marker
+						 * are extension additions: only the root
+						 * of the constraint is PER-visible.
+						 */
+						break;
+					}
 					continue;
 				} else {
 					_range_free(range);
